@@ -347,6 +347,8 @@ struct cfg {
 #define F_CBX 1     /* ping / pong / resource-user-data-release handlers registered, keep-alive on, client session to a raw UDP peer */
 #define F_TCP 2     /* + CoAP-over-TCP client session to a raw stream peer (CSM, 7.02 Ping, 7.03 Pong) */
 #define F_PERSIST 4 /* + observe persist tracking call-outs (coap_persist_track_funcs) registered after set-up */
+#define F_MANY 16   /* 12 more UDP client sessions (own sockets); OP_MANY_IN lets a datagram arrive at each of them at the same moment,
+                     * more ready sockets than one epoll_wait of the library takes (COAP_MAX_EPOLL_EVENTS 10) */
 #define F_NEST 8    /* NACK / event / ping / pong callbacks delete a resource with user data: a call-out nested inside a callback */
 #define KEEPALIVE_S 2
 #define SLEEP_MS 2100 /* > keep-alive period and > idle timeout of the cache entry */
@@ -356,16 +358,19 @@ struct cfg {
 enum {
   OP_SEND, OP_NOTIFY, OP_SESSION, OP_RESOURCE, OP_CACHE, OP_REF, OP_SEND_DEAD, OP_ASYNC_TRIGGER, OP_NEWPEER,
   OP_NOPS, /* menu of the "c13:" family ends here; the following ops are used by "c13x:" scenarios only */
-  OP_SLEEP = OP_NOPS, OP_RAW_PING, OP_SEND_PING, OP_CACHE_APP, OP_RESOURCE_UD, OP_SEND_LARGE, OP_OBSERVE, OP_DEREGISTER, OP_NEWCTX_FAIL,
+  OP_SLEEP = OP_NOPS, OP_RAW_PING, OP_SEND_PING, OP_CACHE_APP, OP_RESOURCE_UD, OP_SEND_LARGE, OP_OBSERVE, OP_DEREGISTER, OP_NEWCTX_FAIL, OP_MANY_IN,
   OP_ALL
 };
 static coap_session_t *extra_sess[MAXT];
 static const char *op_names[] = {"send", "notify", "session", "resource", "cache", "ref", "send-dead", "async-trigger", "new-peer",
-                                 "sleep", "raw-ping", "send-ping", "cache-app", "resource-ud", "send-large", "observe", "deregister", "new-context-bind-fails"};
+                                 "sleep", "raw-ping", "send-ping", "cache-app", "resource-ud", "send-large", "observe", "deregister", "new-context-bind-fails", "many-datagrams"};
 
 static struct cfg *C;
 static coap_context_t *ctx;
 static coap_session_t *cs, *dead, *rawc, *tcps;
+#define NMANY 12
+static coap_session_t *many[NMANY];
+static coap_address_t many_local[NMANY];
 static ns_stream_t *tcp_stream;
 static coap_resource_t *res_r, *res_q;
 static coap_address_t srv, deadpeer, rawpeer, rawtcp;
@@ -754,6 +759,15 @@ do_op(int op, int w) {
   case OP_ASYNC_TRIGGER:
     do_send(cs, 1, "q", "a", (uint8_t)(0x30 + w));
     break;
+  case OP_MANY_IN: {
+    /* the network brings an empty CON (CoAP ping) for each of the NMANY sockets at once */
+    for (int i = 0; i < NMANY; i++)
+      if (many[i]) {
+        uint8_t ping[4] = {0x40, 0x00, 0x60, (uint8_t)i};
+        ns_inject(&rawpeer, &many_local[i], ping, 4);
+      }
+    break;
+  }
   case OP_NEWCTX_FAIL: {
     /* an API call that fails half way (the listen address is in use): it must leave the global lock free */
     coap_address_t la;
@@ -966,6 +980,12 @@ setup(void) {
   coap_resource_set_get_observable(res_q, 1);
   coap_add_resource(ctx, res_q);
   cs = coap_new_client_session(ctx, NULL, &srv, COAP_PROTO_UDP);
+  memset(many, 0, sizeof many);
+  if (C->flags & F_MANY)
+    for (int i = 0; i < NMANY; i++) {
+      ns_addr(&many_local[i], 80 + i, 43000 + i);
+      many[i] = coap_new_client_session(ctx, &many_local[i], &rawpeer, COAP_PROTO_UDP);
+    }
   if (C->flags & F_CBX) {
     /* (no session to a silent peer here: with keep-alive on it would be pinged, given up and closed - the give-up path belongs
      * to the "c13:" family) */
@@ -1138,6 +1158,11 @@ run(void *arg) {
     coap_session_release(dead);
   if (rawc)
     coap_session_release(rawc);
+  for (int i = 0; i < NMANY; i++)
+    if (many[i]) {
+      coap_session_release(many[i]);
+      many[i] = NULL;
+    }
   if (tcps)
     coap_session_release(tcps);
   for (int w = 0; w < MAXT; w++)
@@ -1172,7 +1197,7 @@ add(int nw, int a0, int a1, int b0, int b1, int c0, int c1, int bound) {
              c.ops[w][1] >= 0 ? op_names[c.ops[w][1]] : "");
   if (add_flags)
     snprintf(c.name, sizeof c.name, "c13x" C13_BUILD ":%s%s%s:w=%d:%s|%s|%s:B=%d", add_flags & F_TCP ? "udp+tcp" : "udp", add_flags & F_PERSIST ? "+persist" : "",
-             add_flags & F_NEST ? "+nest" : "", nw,
+             add_flags & F_NEST ? (add_flags & F_MANY ? "+nest+many" : "+nest") : add_flags & F_MANY ? "+many" : "", nw,
              d[0], d[1], nw > 2 ? d[2] : "-", bound);
   else
     snprintf(c.name, sizeof c.name, "c13" C13_BUILD ":w=%d:%s|%s|%s:B=%d", nw, d[0], d[1], nw > 2 ? d[2] : "-", bound);
@@ -1258,6 +1283,10 @@ main(int argc, char **argv) {
   add(2, OP_NEWPEER, -1, OP_NOTIFY, -1, -1, -1, BX);   /* SERVER_SESSION_NEW event in the I/O thread */
   add_flags = F_CBX | F_TCP | F_NEST;
   add(2, OP_SLEEP, OP_REF, OP_SEND, -1, -1, -1, BX);   /* + TCP events and 7.03 */
+  /* more sockets ready at once than one epoll_wait of the library takes: its I/O loop goes round a second time */
+  add_flags = F_MANY;
+  add(2, OP_MANY_IN, -1, OP_SEND, -1, -1, -1, BX);
+  add(2, OP_MANY_IN, OP_REF, OP_NOTIFY, -1, -1, -1, BX);
   add_flags = 0;
   int nx = 0;
   for (int i = 0; i < ncfgs; i++)
